@@ -499,6 +499,8 @@ func runC04(c *Ctx) {
 		R.Ob(c.siteKey(site, "dataResult is a fresh buffered channel"), c.P.InstrPos(site), describe(v) == "makechan(1)", "dataResult assigned "+describe(v))
 	}
 
+	ruleResetEffects(c)
+
 	// ---------- R-go-capture ----------
 	ruleGoCapture(c)
 
